@@ -255,4 +255,70 @@ theorem walk_up_exact (m : LMap) (label : Option String) :
         subst h1; subst h2
         exact ⟨c, h3, ih c r h⟩
 
+/-- one step down goes to the single down-revision, or to base when there is none -/
+theorem walkStep_down (m : LMap) (label : Option String) (s : Id) (nxt : Option Id) (mk : Bool)
+    (h : walkStep m false label (some s) false = .ok (some (nxt, mk))) :
+    (∃ c, nxt = some c ∧ mk = false ∧ m.downOf s = [c]) ∨ (nxt = none ∧ mk = true ∧ m.downOf s = []) := by
+  unfold walkStep at h
+  simp only [Bool.false_eq_true, if_false, pure, Except.pure] at h
+  match hd : m.downOf s, h with
+  | [], h =>
+    simp only [Except.ok.injEq, Option.some.injEq, Prod.mk.injEq] at h
+    exact Or.inr ⟨h.1.symm, h.2.symm, rfl⟩
+  | [c], h =>
+    simp only [Except.ok.injEq, Option.some.injEq, Prod.mk.injEq] at h
+    exact Or.inl ⟨c, h.1.symm, h.2.symm, rfl⟩
+  | _ :: _ :: _, h => simp [throw, throwThe, MonadExceptOf.throw] at h
+
+/-- **`id-N` / `-N` never lands at a different distance**: when the downward walk (the relative
+downgrade forms, with `assert_relative_length`) returns a revision, it is exactly `n`
+down-revision links below the start and every revision on the way has that single down-revision;
+when it returns base, the start is `n - 1` such links above a revision without down-revision. -/
+theorem walk_down_exact (m : LMap) (label : Option String) :
+    ∀ (n : Nat) (s : Id) (r : Option Id), walk.go m (-1 : Int) label true n (some s) false = .ok (some r) →
+      match r with
+      | some r => PathN m.downOf n s r
+      | none => ∃ root, n ≥ 1 ∧ PathN m.downOf (n - 1) s root ∧ m.downOf root = [] := by
+  intro n
+  induction n with
+  | zero =>
+    intro s r h
+    simp [walk.go] at h
+    subst h
+    exact rfl
+  | succ k ih =>
+    intro s r h
+    simp only [walk.go, bind, Except.bind] at h
+    have hdec : (decide ((-1 : Int) > 0)) = false := by decide
+    simp only [hdec] at h
+    cases hv : walkStep m false label (some s) false with
+    | error e => simp [hv] at h
+    | ok v =>
+      simp only [hv] at h
+      cases v with
+      | none => simp [pure, Except.pure] at h
+      | some pr =>
+        obtain ⟨nxt, mk⟩ := pr
+        simp only at h
+        rcases walkStep_down m label s nxt mk hv with ⟨c, h1, h2, h3⟩ | ⟨h1, h2, h3⟩
+        · subst h1; subst h2
+          have := ih c r h
+          cases r with
+          | some r' => exact ⟨c, by rw [h3]; exact List.mem_cons_self, this⟩
+          | none =>
+            obtain ⟨root, hk, hp, hr⟩ := this
+            refine ⟨root, by omega, ?_, hr⟩
+            have e : k + 1 - 1 = (k - 1) + 1 := by omega
+            rw [e]
+            exact ⟨c, by rw [h3]; exact List.mem_cons_self, hp⟩
+        · subst h1; subst h2
+          -- we are at base with the marker set: only zero further steps can succeed
+          cases k with
+          | zero =>
+            simp [walk.go] at h
+            subst h
+            exact ⟨s, by omega, rfl, h3⟩
+          | succ k' =>
+            simp [walk.go, walkStep, bind, Except.bind, pure, Except.pure] at h
+
 end C16
